@@ -7,3 +7,34 @@ pub use super::tlvs::vh_messages_tlvs as tlvs;
 pub fn csptp_parse_kind(buffer: &[u8]) -> Option<(bool, bool)> {
     CsptpMessage::deserialize(buffer).ok().map(|m| (m.is_request(), m.is_response()))
 }
+
+// ---- statime_h (C45): the crate-private CsptpMessage behind an opaque wrapper, one thin wrapper per method
+pub struct Msg<'a>(CsptpMessage<'a>);
+pub fn msg_deserialize(buffer: &[u8]) -> Option<Msg<'_>> {
+    CsptpMessage::deserialize(buffer).ok().map(Msg)
+}
+pub fn msg_is_request(m: &Msg<'_>) -> bool {
+    m.0.is_request()
+}
+pub fn msg_is_response(m: &Msg<'_>) -> bool {
+    m.0.is_response()
+}
+pub fn msg_new_response<'a>(
+    buffer: &'a mut [u8],
+    request: &Msg<'_>,
+    recv_timestamp: Timestamp,
+    send_timestamp: Option<Timestamp>,
+    time_snapshot: &TimeSnapshot,
+    csptp_state: &CsptpState,
+) -> Option<Msg<'a>> {
+    CsptpMessage::new_response(buffer, &request.0, recv_timestamp, send_timestamp, time_snapshot, csptp_state).ok().map(Msg)
+}
+pub fn msg_new_follow_up(response: &Msg<'_>, send_timestamp: Timestamp) -> Option<Msg<'static>> {
+    CsptpMessage::new_follow_up(&response.0, send_timestamp).ok().map(Msg)
+}
+pub fn msg_new_request(buffer: &mut [u8], domain_number: u8, sequence_id: u16) -> Option<Msg<'_>> {
+    CsptpMessage::new_request(buffer, domain_number, sequence_id).ok().map(Msg)
+}
+pub fn msg_serialize(m: &Msg<'_>, out: &mut [u8]) -> Option<usize> {
+    m.0.serialize(out).ok()
+}
